@@ -63,6 +63,28 @@ def f1_geometry(turn=0.125):
     return Geometry([W, D])
 
 
+def nest3_geometry():
+    """world sphere r 50 > middle (Rz 90, t=(1,2,3)) > inner (Rx 90, t=(-2,0,1)) with plane x = 0.5
+    and a sphere r 3 around it; returns (geometry, {side: global start point})"""
+    from geom import Unit, Vol, Geometry
+    W = Unit("world")
+    sw = W.add_surface('sc', [2500.0])
+    W.volumes = [Vol(('s', sw, True), 'X', 'ext'), Vol(('s', sw, False), None, 'all')]
+    t0 = [0.0, -1.0, 0.0, 1.0, 0.0, 0.0, 0.0, 0.0, 1.0, 1.0, 2.0, 3.0]
+    W.daughters[1] = (1, t0)
+    M = Unit("middle")
+    sm = M.add_surface('s', [-2.0, 0.0, 1.0, 36.0])
+    M.volumes = [Vol(('false',), 'x', 'mext'), Vol(('s', sm, False), None, 'hole'), Vol(('s', sm, True), None, 'mfill')]
+    t1 = [1.0, 0.0, 0.0, 0.0, 0.0, -1.0, 0.0, 1.0, 0.0, -2.0, 0.0, 1.0]
+    M.daughters[1] = (2, t1)
+    I = Unit("inner")
+    pl = I.add_surface('px', [0.5])
+    I.volumes = [Vol(('false',), 'x', 'iext'), Vol(('s', pl, False), None, 'lo'), Vol(('s', pl, True), None, 'hi')]
+    g = Geometry([W, M, I])
+    up = lambda p: gen.t_up_point(t0, gen.t_up_point(t1, p))
+    return g, {"lo": up([-0.7, 0.3, 0.2]), "hi": up([1.7, 0.3, 0.2])}
+
+
 def corpus_scenarios():
     """minimised past disagreements, run first"""
     out = []
@@ -77,6 +99,17 @@ def corpus_scenarios():
     prog2 = ["F", "B", "D " + gen.fmt_dir(gen.normalize([-0.8, 0.3, 0.0])), "F", "X", "F",
              "M " + float(0.5).hex(), "F", "T 50"]
     out.append(("corpus-F1-pre", f1_geometry(0.125), [([1.0, 0.3, 0.0], [1.0, 0.0, 0.0], prog2)]))
+    # three nested units, placements Rz(90)+t and Rx(90)+t (non-commuting): set_dir on a
+    # plane of the innermost unit (surface level 2), before and after crossing.  The true
+    # global normal of the plane is +y; composing the rotations in the wrong order gives +z
+    g3, starts = nest3_geometry()
+    for gd_old, gd_new in (([0.0, 0.8, -0.6], [0.0, -0.8, -0.6]), ([0.0, 0.8, -0.6], [0.0, 0.8, 0.6]),
+                           ([0.0, -0.8, 0.6], [0.0, 0.8, 0.6]), ([0.0, 0.6, 0.8], [0.0, -0.6, 0.8])):
+        side = "lo" if gd_old[1] > 0 else "hi"
+        pre = ["F", "B", "D " + gen.fmt_dir(gd_new), "F", "X", "F", "M 0x1p-2", "F", "T 50"]
+        post = ["F", "B", "X", "D " + gen.fmt_dir(gd_new), "F", "Y", "F", "M 0x1p-2", "F", "T 50"]
+        out.append(("corpus-nest3-%s-%d" % (side, len(out)), g3,
+                    [(starts[side], gd_old, pre), (starts[side], gd_old, post)]))
     # limited search with max exactly equal to the distance of a daughter-level boundary
     out.append(("corpus-limited-tie", f1_geometry(0.125),
                 [([0.1, 0.05, 0.02], [1.0, 0.0, 0.0], ["L 0x1p+0", "M 0x1p-1", "F", "T 50"]),
@@ -287,7 +320,7 @@ class Checker:
 def build_scenarios(ctx):
     r = ctx.rng
     quick = ctx.tier == "quick"
-    n_geo = 75 if quick else 800
+    n_geo = 60 if quick else 700
     n_arr = 12 if quick else 100
     rays_per = 6 if quick else 10
     scen = corpus_scenarios()
@@ -302,6 +335,17 @@ def build_scenarios(ctx):
             rays.append((pd[0], pd[1], gen.gen_program(r, r.choice([3, 5, 8]), pd[1])))
         if rays:
             scen.append(("gen%d%s" % (gi, "b" if basic else ""), g, rays))
+    n_deep = 30 if quick else 300
+    for gi in range(n_deep):
+        g = gen.gen_deep_geometry(r, basic=(gi % 2 == 0))
+        rays = []
+        for _ in range(rays_per + 2):
+            pd = gen.gen_ray(r, g)
+            if pd is None:
+                continue
+            rays.append((pd[0], pd[1], gen.gen_program(r, r.choice([4, 6, 8]), pd[1], boundary_heavy=True)))
+        if rays:
+            scen.append(("deep%d%s" % (gi, "b" if gi % 2 == 0 else ""), g, rays))
     for gi in range(n_arr):
         g = gen.gen_array_geometry(r)
         rays = []
@@ -431,7 +475,8 @@ def run(ctx):
         if nm not in seen_g:
             seen_g.append(nm)
         gi = seen_g.index(nm)
-        if nm.startswith("corpus") or (gi % stride == 0 and job[2] < nray):
+        if nm.startswith("corpus") or (nm.startswith("deep") and job[2] < nray + 2) \
+                or (gi % stride == 0 and job[2] < nray):
             keep.append(job)
     ctx.log("model replay on %d of %d rays" % (len(keep), len(model_jobs)))
     model_jobs = keep
@@ -453,6 +498,9 @@ def run(ctx):
     nrep = 0
     path_of = {name: path for name, g, path, rays in index}
     for it in all_issues:
+        if it.get("signature") != KNOWN_SIG:
+            ctx.count("issue:%s:%s" % (it["kind"], "corpus" if it["geometry"].startswith("corpus")
+                                       else it["geometry"].rstrip("0123456789b") or "bundled"))
         if not it.get("geometry_file"):
             it["geometry_file"] = path_of.get(it["geometry"], "")
         key = (it["kind"], it.get("signature"))
